@@ -365,6 +365,7 @@ package slice
 //@   ensures [C11,C13] script: len(result) > 0 ==> scriptOK(result, lhs, rhs, equal, lp, rp) && lp[len(result)] == len(lhs) && rp[len(result)] == len(rhs)
 //@   ensures [C11,C13] same: len(result) == 0 ==> len(lhs) == len(rhs) && forall t int :: {lhs[t]} 0 <= t && t < len(lhs) ==> eqv(equal, lhs[t], rhs[t])
 //@   ensures [C11,C13] inputs: unchanged(elems(lhs)) && unchanged(elems(rhs))
+//@   ensures [C11] alternate: altOK(result)
 //@   at exit: ghost lp = editScriptFunc_lp
 //@   at exit: ghost rp = editScriptFunc_rp
 //@
